@@ -615,6 +615,9 @@ def _any_all(interp, a, is_any, args, kw):
         return _native(np.any if is_any else np.all, a, *args, **kw)
     if args or kw:
         raise Unsupported("np.any/np.all with axis")
+    if a.dtype.kind != "b":
+        src0 = a.frozen()
+        a = SArr.from_fn(lambda *i: src0.elem(*i) != 0, src0.shape, np.dtype(bool))      # truthiness of numbers
     if all(isinstance(n, int) for n in a.shape):
         import itertools
         vals = [a.elem(*idx) for idx in itertools.product(*[range(n) for n in a.shape])]
